@@ -241,4 +241,22 @@ example :
       some ([Ev.out 65, Ev.out 99, Ev.out 66, Ev.out 89], .returned) := by
   refine ⟨by decide, by decide, by decide +kernel, by decide +kernel⟩
 
+/-- … and a defeat function that returns a value (`int y = !val(x);` inside the body of a `try/stop`): the value comes
+back through the callee's frame slot exactly as for ordinary functions when no defeat is reached -/
+example :
+    let pr (v : Int) : Core.CProg :=
+      { params := [],
+        funs := [{ name := "!val", params := ["x"], dfn := true,
+                   body := .defeatIf (.cmp .gt (.var "x") (.lit 5)) (.retE (.bin .add (.var "x") (.lit 60))) }],
+        body := .decl "x" (.lit v)
+          (.tryStop (.putc 65 (.declCall "y" "!val" [.var "x"] (.putc 66 (.assign "x" (.var "y") .nil))))
+                    (.putc 83 .nil)
+            (.ifb (.cmp .eq (.var "x") (.lit 65)) (.putc 89 .nil) (.putc 78 .nil) .ret)) }
+    Core.wfProg (pr 9) = true ∧
+    (Core.srcRun ⟨2, 100, true⟩ 12 [] (pr 9)).map (fun r => (r.2.1, r.2.2)) =
+      some ([Ev.out 65, Ev.out 83, Ev.out 78], .returned) ∧
+    (Core.srcRun ⟨2, 100, true⟩ 12 [] (pr 5)).map (fun r => (r.2.1, r.2.2)) =
+      some ([Ev.out 65, Ev.out 66, Ev.out 89], .returned) := by
+  refine ⟨by decide, by decide +kernel, by decide +kernel⟩
+
 end HidVerif.Props.C02
